@@ -38,7 +38,7 @@ import (
 func main() { harness.Main("C11", "exploration", run) }
 
 func run(e *harness.Env) {
-	e.Rule = "full product of pages P in 1..4 x header {none, same on all pages, odd/even, different on every page, same + unique sub-line sharing its prefix, 'Section n Overview'} " +
+	e.Rule = "full product of pages P in 1..4 x header {none, same on all pages, odd/even, different on every page, same + unique sub-line sharing its prefix, 'Section n Overview', running lines identical on every page that contain one number / two adjacent numbers (year range, version) / two distant numbers / a page's own number, in the top band and (with a digit-free one) in the bottom band; part (B) runs these ten kinds on Letter pages x body {unique, numeric, numeric 80 pt from either edge}} " +
 		"x running page number {none, or style n | Page n | n of N | - n - (thorough: + Page n of N | n/N | p. n | pg n) printed in the bottom or top band} " +
 		"x body {unique, a line repeated at one body position, the running header's text at a body position, numeric, numeric 72/80/101 pt from the bottom or top edge, a repeated line inside the top / bottom band on one page only, " +
 		"the same text inside the bottom band of every page at positions 13 pt apart}; (A) fragment sets x page size {Letter, A4, mixed} x fragment order {top-down, bottom-up} through Detect + FilterFragments on every page (exact attribution by fragment id); " +
